@@ -174,25 +174,59 @@ def rule_b(ctx):
     k = m.cls(MOD, "ConcentrationAnalysis")
     g = m.method(k, "_subtract_background")
     p = g.params[1]
-    forms = diff_forms(g)
     I, B = Poly.atom("I"), Poly.atom("B")
     want = {"plain": ("id", I - B), "positive": ("clip0", I - B), "negative": ("clip0", B - I), "absolute": ("abs", I - B)}
+    # the method is folded symbolically for every (baseline present?, option): the returned term is read as wrapper(linear form)
+    from ..fold import Folder, Obj, Opaque, Raised, Refuse, Sym
+
+    def to_poly(x):
+        if isinstance(x, Opaque):
+            return Poly.atom(x.label)
+        if isinstance(x, Sym):
+            if x.fn in ("+", "-", "*") and len(x.args) == 2:
+                a_, b_ = to_poly(x.args[0]), to_poly(x.args[1])
+                return a_ + b_ if x.fn == "+" else (a_ - b_ if x.fn == "-" else a_ * b_)
+            if x.fn == "neg" and len(x.args) == 1:
+                return -to_poly(x.args[0])
+        if isinstance(x, (int, float)) and not isinstance(x, bool):
+            return Poly.const(x)
+        raise NotPolynomial(repr(x))
+
+    def classify_term(x):
+        if isinstance(x, Sym) and x.fn == "np.clip" and len(x.args) == 3 and x.args[1] == 0 and x.args[2] is None:
+            return "clip0", to_poly(x.args[0])
+        if isinstance(x, Sym) and x.fn in ("np.abs", "np.absolute") and len(x.args) == 1:
+            return "abs", to_poly(x.args[0])
+        if isinstance(x, Sym) and x.fn == "skimage.util.compare_images" and len(x.args) == 2 and x.kw.get("method") == "diff":
+            return "abs", to_poly(x.args[0]) - to_poly(x.args[1])   # frozen external fact: compare_images(a, b, method='diff') = |a - b|
+        return "id", to_poly(x)
+
     for has_base in (True, False):
         ctx.instance(R)
-        opts = sorted(o for hb, o in forms if hb == has_base and o != "__else_raises__")
-        ctx.ob(R, g.qname, f"{'with' if has_base else 'without'} baseline: the four documented options are dispatched and anything else raises",
-               opts == sorted(want) and forms.get((has_base, "__else_raises__")), str(opts), g.node)
-        for opt, (w, form) in want.items():
-            e = forms.get((has_base, opt))
-            if e is None:
-                continue
+        for opt in list(want) + ["no-such-option"]:
+            me = Obj("self", {"base": Obj("base", {"img": Opaque("arr", "B")}) if has_base else None, "_diff_option": opt})
+            fo = Folder(symbolic=True)
+            fo.func_stack.append(g.node)
+            label = f"{'with' if has_base else 'without'} baseline, '{opt}'"
             try:
-                gw, gf = classify(e, p)
-            except NotPolynomial as ex:
-                raise AnalysisError(f"_subtract_background: {opt} outside the linear language: {ex}")
+                res = fo.call(g.node, [me, Obj("img", {"img": Opaque("arr", "I")})])
+            except Raised as e:
+                ctx.ob(R, g.qname, f"{label}: " + ("an undocumented option raises" if opt not in want else "is dispatched"), opt not in want, f"raises {e.name}", g.node, evidence=True)
+                continue
+            except Refuse as e:
+                ctx.ob(R, g.qname, f"{label}: evaluated", False, f"difference not found to be foldable: {e}", g.node)
+                continue
+            if opt not in want:
+                ctx.ob(R, g.qname, f"{label}: an undocumented option raises", False, f"returns {res!r}", g.node, evidence=True)
+                continue
+            w, form = want[opt]
             wf = form if has_base else form.subst("B", Poly())
-            ok = gw == w and (gf == wf or (w == "abs" and gf == -wf))
-            ctx.ob(R, g.qname, f"{'with' if has_base else 'without'} baseline, '{opt}' = {w}({wf!r})", ok, f"got {gw}({gf!r})", e)
+            try:
+                gw, gf = classify_term(res)
+                ok = gw == w and (gf == wf or (w == "abs" and gf == -wf))
+                ctx.ob(R, g.qname, f"{label} = {w}({wf!r})", ok, f"got {gw}({gf!r})", g.node, evidence=True)
+            except NotPolynomial as ex:
+                ctx.ob(R, g.qname, f"{label} = {w}({wf!r})", False, f"returned term not found to be a linear form: {ex}", g.node)
     init = m.method(k, "__init__")
     doc = ast.get_docstring(init.node) or ""
     import re
